@@ -202,6 +202,70 @@ def relayout_copy(x, depth=0):
     return x
 
 
+def close_values(a, b, rtol=2e-3):
+    """close() on the VALUES only: number types may differ (a Python float vs a NumPy scalar, float32 vs float64 results)"""
+    def norm(x):
+        if x[0] == 't':
+            t = x[3]
+            t = t.to(torch.complex128) if t.is_complex() else (t.to(torch.float64) if (t.is_floating_point() or t.dtype in (torch.int8, torch.int16, torch.int32, torch.int64, torch.uint8, torch.bool)) else t)
+            return ('t', '', x[2], t)
+        if x[0] == 'nd':
+            arr = x[3]
+            if arr.dtype.kind in 'fiub':
+                arr = arr.astype(np.float64)
+            elif arr.dtype.kind == 'c':
+                arr = arr.astype(np.complex128)
+            return ('nd', '', x[2], arr)
+        if x[0] == 'seq':
+            return ('seq', 'seq', [norm(e) for e in x[2]])
+        if x[0] == 'dict':
+            return ('dict', [(k, norm(v)) for k, v in x[1]])
+        if x[0] == 'v' and isinstance(x[1], (bool, int, float)) and not isinstance(x[1], bool):
+            return ('v', float(x[1]))
+        return x
+    try:
+        return close(norm(a), norm(b), rtol)
+    except Exception:
+        return True
+
+
+def argument_type_variants(x):
+    """other ways to hand over the SAME value that callers of a numerical library use without thinking: a tuple or a torch.Size / NumPy integer array
+    for a list of ints, a tuple for a list of bools or floats, a NumPy scalar or a 0-d tensor for a Python float, a torch.nn.Parameter for a tensor.
+    yields (description, value)"""
+    if isinstance(x, bool) or x is None or isinstance(x, str):
+        return
+    if isinstance(x, list) and x and all(isinstance(e, bool) for e in x):
+        yield 'a tuple instead of a list of bools', tuple(x)
+        return
+    if isinstance(x, list) and x and all(isinstance(e, int) and not isinstance(e, bool) for e in x):
+        yield 'a tuple instead of a list of ints', tuple(x)
+        if all(e >= 0 for e in x):
+            yield 'a torch.Size instead of a list of ints', torch.Size(x)
+        yield 'a list of NumPy integers instead of a list of ints', [np.int64(e) for e in x]
+        return
+    if isinstance(x, tuple) and x and all(isinstance(e, int) and not isinstance(e, bool) for e in x) and not isinstance(x, torch.Size):
+        yield 'a list instead of a tuple of ints', list(x)
+        return
+    if isinstance(x, list) and x and all(isinstance(e, (int, float)) and not isinstance(e, bool) for e in x):
+        yield 'a tuple instead of a list of numbers', tuple(x)
+        return
+    if isinstance(x, float):
+        yield 'a NumPy float64 scalar instead of a Python float', np.float64(x)
+        return
+    if isinstance(x, torch.Tensor) and x.is_floating_point() and not x.requires_grad and x.numel() > 0 and x.is_leaf:
+        yield 'PARAMETER', None
+        return
+
+
+def _any_requires_grad(r, depth=0):
+    if isinstance(r, torch.Tensor):
+        return bool(r.requires_grad)
+    if isinstance(r, (list, tuple)) and depth < 3:
+        return any(_any_requires_grad(e, depth + 1) for e in r)
+    return False
+
+
 # iterative optimisers amplify rounding differences (another memory order changes the FFT's summation order): no layout comparison for them
 ITERATIVE = {'odak.learn.wave.classical:stochastic_gradient_descent', 'odak.learn.wave.classical:gerchberg_saxton',
              'odak.learn.wave.classical:point_wise', 'odak.learn.wave.optimizers:multi_color_hologram_optimizer.optimize',
@@ -224,6 +288,8 @@ class Probe:
         self.result_changed_later = {}   # qual -> description
         self.layout_dependent = {}
         self.result_owned_by_library = {}
+        self.argument_type_dependent = {}
+        self.type_calls = set()
         self.calls = {}
         self.mutated = {}        # (qual, param) -> example description
         self.default_mutated = {}
@@ -240,7 +306,8 @@ class Probe:
         @functools.wraps(fn)
         def wrapper(*args, **kwargs):
             probe.calls[qual] = probe.calls.get(qual, 0) + 1
-            if probe.calls[qual] > 40 or probe.depth > 6:       # enough observations of this callable / deep recursion
+            top_level_probe = probe.identity and probe.depth == 0 and sum(1 for q, _ in probe.type_calls if q == qual) < 24
+            if (probe.calls[qual] > 40 and not top_level_probe) or probe.depth > 6:       # enough observations of this callable / deep recursion
                 return fn(*args, **kwargs)
             try:
                 bound = sig.bind(*args, **kwargs)
@@ -255,7 +322,29 @@ class Probe:
             try:
                 if probe.identity and probe.depth == 1 and probe.identity_calls.get(qual, 0) < 2:
                     probe.identity_calls[qual] = probe.identity_calls.get(qual, 0) + 1
+                    probe.type_calls.add((qual, tuple(sorted((k_, repr(v_)[:40]) if isinstance(v_, (bool, int, str, list, tuple)) and len(repr(v_)) < 200 else (k_, '')
+                                                             for k_, v_ in bound.arguments.items() if k_ != 'self'))))
                     return probe.identity_probe(fn, qual, args, kwargs)
+                tkey = (qual, tuple(sorted((k_, repr(v_)[:40]) if isinstance(v_, (bool, int, str, list, tuple)) and len(repr(v_)) < 200 else (k_, '')
+                                           for k_, v_ in bound.arguments.items() if k_ != 'self')))
+                if probe.identity and probe.depth == 1 and tkey not in probe.type_calls and sum(1 for q, _ in probe.type_calls if q == qual) < 24:
+                    # a call of an already probed function that passes ANOTHER set of arguments: only the argument-type variants (vii)
+                    probe.type_calls.add(tkey)
+                    import random as _rnd
+                    r1 = fn(*args, **kwargs)          # with the caller's random state, exactly as an unprobed call
+                    rng_after = (torch.get_rng_state(), np.random.get_state(), _rnd.getstate())
+                    try:
+                        _seed()
+                        r_a = snap(fn(*fresh_copy(args), **fresh_copy(kwargs)))
+                        _seed()
+                        r_b = snap(fn(*fresh_copy(args), **fresh_copy(kwargs)))
+                        if same(r_a, r_b):
+                            probe._argument_type_probe(fn, qual, args, kwargs, r_a)
+                    except Exception:
+                        pass
+                    finally:
+                        torch.set_rng_state(rng_after[0]); np.random.set_state(rng_after[1]); _rnd.setstate(rng_after[2])
+                    return r1
                 return fn(*args, **kwargs)
             finally:
                 probe.depth -= 1
@@ -313,12 +402,52 @@ class Probe:
             # (d) what a call returns belongs to the caller: after the caller has scaled the returned object in place, the same call returns the same
             # values as before (unless the result is a view of an argument, which then changed too)
             self._returned_object_probe(fn, qual, args, kwargs, keep, r_same, r_fresh)
+            if same(r_same, r_fresh):
+                self._argument_type_probe(fn, qual, args, kwargs, r_same)
         except Exception:
             pass
         finally:
             restore_in_place(args, saved_a)          # the caller's objects get their contents back
             restore_in_place(kwargs, saved_k)
         return r1
+
+    def _argument_type_probe(self, fn, qual, args, kwargs, r_base):
+        """(vii) the same VALUES handed over in another ordinary type (tuple / torch.Size / NumPy scalars for lists and floats, torch.nn.Parameter for
+        a tensor): when the call accepts them it returns the same values; with a Parameter the result is connected to it through autograd exactly when
+        it is connected to a plain leaf tensor that requires grad"""
+        if qual in ITERATIVE:
+            return
+        slots = [('arg', i) for i in range(len(args))] + [('kw', k) for k in kwargs]
+        for kind, key in slots:
+            x = args[key] if kind == 'arg' else kwargs[key]
+            for what, v in argument_type_variants(x):
+                def call_with(val):
+                    a2, k2 = list(fresh_copy(args)), dict(fresh_copy(kwargs))
+                    if kind == 'arg':
+                        a2[key] = val
+                    else:
+                        k2[key] = val
+                    _seed()
+                    return fn(*a2, **k2)
+                try:
+                    if what == 'PARAMETER':
+                        leaf = x.detach().clone().requires_grad_(True)
+                        r_leaf = call_with(leaf)
+                        par = torch.nn.Parameter(x.detach().clone())
+                        r_par = call_with(par)
+                        if _any_requires_grad(r_leaf) and not _any_requires_grad(r_par):
+                            self.argument_type_dependent.setdefault(qual, 'the result is connected through autograd to a plain tensor that requires grad but NOT to a '
+                                                                          'torch.nn.Parameter holding the same values (argument %s)' % (key,))
+                        elif not close_values(snap(r_leaf), snap(r_par)):
+                            self.argument_type_dependent.setdefault(qual, 'the call returns other values for a torch.nn.Parameter than for a tensor holding the same '
+                                                                          'values (argument %s)' % (key,))
+                        continue
+                    r_var = call_with(v)
+                except Exception:
+                    continue          # the call does not accept this type: nothing to compare
+                if not close_values(r_base, snap(r_var)):
+                    self.argument_type_dependent.setdefault(qual, 'the call accepts %s for argument %s but returns something else than for the original type '
+                                                                  'holding the same values' % (what, key))
 
     def _returned_object_probe(self, fn, qual, args, kwargs, keep, r_same, r_fresh):
         """(d) what a call returns belongs to the caller: after the caller has scaled the returned object in place, the same call returns the same
